@@ -22,6 +22,7 @@ import socket
 import struct
 import sys
 import tempfile
+import time
 
 sys.path.insert(0, os.path.dirname(os.path.abspath(__file__)))
 import common
@@ -212,17 +213,34 @@ class ServerRun:
                 sorted(sid(k) for k in p._targets if isinstance(k, socket.socket) and k is not self.ls),
                 mp]
 
-    def settle(self):
-        """zero-timeout ticks until three consecutive ticks change neither the tables nor the observer's view"""
-        same, last = 0, None
-        for _ in range(MAXTICKS):
-            self.m.tick(0)
-            cur = (common.canon(self.tables()), len(self.probe.seen), len(self.m._queue))
-            same = same + 1 if (cur == last and cur[2] == 0) else 0
-            last = cur
-            if same >= 3:
-                break
-        self.log.append(('snap', self.tables()))
+    def settle(self, final=False):
+        """zero-timeout ticks until three consecutive ticks change neither the tables nor the observer's view.
+        Loopback TCP may deliver a FIN/RST a moment after the peer's syscall returned (softirq under load): for the
+        tcp family a stable state is confirmed after a short sleep, and the final settle waits (bounded) until every
+        connection whose peer is closed has been torn down."""
+        def stable():
+            same, last = 0, None
+            for _ in range(MAXTICKS):
+                self.m.tick(0)
+                cur = (common.canon(self.tables()), len(self.probe.seen), len(self.m._queue))
+                same = same + 1 if (cur == last and cur[2] == 0) else 0
+                last = cur
+                if same >= 3:
+                    break
+            return last
+        cur = stable()
+        if self.family == 'tcp':
+            for _ in range(60 if final else 2):
+                if final and not self.server._clients:
+                    break
+                time.sleep(0.003)
+                nxt = stable()
+                if nxt == cur and not final:
+                    break
+                cur = nxt
+        t = self.tables()
+        self.log.append(('snap', t))
+        self.probe.seen.append(['snap', t])
 
     # ---- operations
     def apply(self, op):
@@ -286,7 +304,7 @@ class ServerRun:
             if p is not None:
                 p.close()
                 self.peers[c] = None
-        self.settle()
+        self.settle(final=True)
 
     def dispose(self):
         self.m._running = False
@@ -348,15 +366,12 @@ def stimuli(log):
         if e[0] == 'h':
             # the kernel calls made while this handler ran follow it directly
             sub = []
-            while j < n and log[j][0] in ('recv', 'send', 'accept', 'accept_none', 'peername_err'):
+            while j < n and log[j][0] in ('recv', 'send'):
                 sub.append(log[j])
                 j += 1
             name, s = e[1], e[2]
             if name == '_read' and s == -1:
-                acc = [x for x in sub if x[0] == 'accept']
-                if acc:
-                    gone = any(x[0] == 'peername_err' for x in sub)
-                    st.append(['acceptgone' if gone else 'accept', acc[0][1], 0])
+                pass          # _accept is a generator: the accept() call shows up in the log where it really runs
             elif name == '_read':
                 rc = [x for x in sub if x[0] == 'recv']
                 if rc:
@@ -378,6 +393,9 @@ def stimuli(log):
                 st.append(['write', s, e[3]])
             elif name == 'close':
                 st.append(['close', s, 0])
+        elif e[0] == 'accept':
+            gone = j < n and log[j][0] == 'peername_err' and log[j][1] == e[1]
+            st.append(['acceptgone' if gone else 'accept', e[1], 0])
         elif e[0] == 'drop':
             st.append(['drop', e[1], 0])
         elif e[0] == 'snap':
@@ -386,11 +404,584 @@ def stimuli(log):
     return st, calls
 
 
+
+# ------------------------------------------------------------------------------------------------ client side
+
+class CProbe(BaseComponent):
+    channel = 'client'
+
+    def init(self, log=None, client=None):
+        self.log = log
+        self.client = client
+        self.seen = []
+
+    @handler('_read', '_write', '_disconnect', 'close', 'connect', priority=50)
+    def _low(self, event, *a, **kw):
+        self.log.append(('h', event.name, bool(self.client._connected)))
+
+    @handler('write', priority=50)
+    def _w(self, event, data=b'', *a):
+        self.log.append(('h', 'write', len(data)))
+
+    @handler('_write', priority=-50)
+    def _after(self, event, *a):
+        self.log.append(('after', bool(self.client._connected)))
+
+    @handler('connected')
+    def _connected(self, *a):
+        self.seen.append([0])
+
+    @handler('disconnected')
+    def _disconnected(self, *a):
+        self.seen.append([1])
+
+    @handler('read')
+    def _read(self, data):
+        self.seen.append([3, list(data)])
+
+
+def run_client_case(case):
+    kind, family = case['poller'], case.get('family', 'unix')
+    log = []
+    tmp = None
+
+    class CSock(RecSock):
+        pass
+    CSock.log = log
+    CSock.sid = 0
+    if family == 'unix':
+        tmp = tempfile.mkdtemp(prefix='c12c_')
+        addr = os.path.join(tmp, 's')
+        ls = socket.socket(socket.AF_UNIX, socket.SOCK_STREAM)
+    else:
+        ls = socket.socket(socket.AF_INET, socket.SOCK_STREAM)
+        addr = ('127.0.0.1', 0)
+    ls.bind(addr)
+    ls.listen(16)
+    ls.setblocking(False)
+    addr = ls.getsockname()
+    saved = S.socket
+    S.socket = CSock
+    m = Manager()
+    poller = getattr(P, kind)().register(m)
+    try:
+        cl = (S.UNIXClient if family == 'unix' else S.TCPClient)(bufsize=BUFSIZE).register(m)
+        probe = CProbe(log=log, client=cl).register(m)
+        m._running = True
+        peers = []
+
+        def settle():
+            same, last, slept = 0, None, False
+            for _ in range(MAXTICKS):
+                m.tick(0)
+                cur = (len(probe.seen), len(log), bool(cl._connected), len(cl._buffer), len(m._queue))
+                same = same + 1 if (cur == last and cur[4] == 0) else 0
+                last = cur
+                if same >= 3:
+                    if family == 'tcp' and not slept:
+                        slept = True
+                        time.sleep(0.003)
+                        same = 0
+                        continue
+                    break
+            while True:
+                try:
+                    a, _ = ls.accept()
+                except OSError:
+                    break
+                a.setblocking(False)
+                a.setsockopt(socket.SOL_SOCKET, socket.SO_RCVBUF, 2048)
+                peers.append(a)
+        settle()
+        applied, sent, bad_connect = [], 0, False
+        for idx, op in enumerate(case['ops']):
+            log.append(('op', idx, len(probe.seen)))
+            k = op[0]
+            peer = peers[-1] if peers and peers[-1].fileno() >= 0 else None
+            ok = True
+            if k == 'connect':
+                if cl._connected:
+                    bad_connect = True
+                if family == 'unix':
+                    m.fire(connect_ev(addr), 'client')
+                else:
+                    m.fire(connect_ev(addr[0], addr[1]), 'client')
+            elif k == 'write':
+                if cl._connected:
+                    m.fire(write_ev(b'w' * op[1]), 'client')
+                else:
+                    ok = False
+            elif k == 'close':
+                m.fire(close_ev(), 'client')
+            elif peer is None:
+                ok = False
+            elif k == 'psend':
+                try:
+                    peer.send(pattern(7, sent, op[1]))
+                    sent += op[1]
+                except OSError:
+                    ok = False
+            elif k == 'pshutwr':
+                try:
+                    peer.shutdown(socket.SHUT_WR)
+                except OSError:
+                    ok = False
+            elif k == 'pdrain':
+                try:
+                    while peer.recv(65536):
+                        pass
+                except OSError:
+                    pass
+            elif k in ('pclose', 'preset'):
+                if k == 'preset' and family == 'tcp':
+                    peer.setsockopt(socket.SOL_SOCKET, socket.SO_LINGER, struct.pack('ii', 1, 0))
+                peer.close()
+            else:
+                raise ValueError(k)
+            applied.append(1 if ok else 0)
+            if ok:
+                settle()
+        log.append(('op', len(case['ops']), len(probe.seen)))
+        for a in peers:
+            a.close()
+        settle()
+        return {'log': canon_log(log), 'seen': probe.seen, 'applied': applied, 'bad_connect': bad_connect,
+                'final': [bool(cl._connected), [len(x) for x in cl._buffer], bool(cl._closeflag)]}
+    finally:
+        S.socket = saved
+        m._running = False
+        for a in [ls] + [x for x in (getattr(locals().get('cl'), '_sock', None),) if x is not None]:
+            try:
+                a.close()
+            except OSError:
+                pass
+        for fd in (poller._ctrl_recv, poller._ctrl_send):
+            try:
+                os.close(fd) if isinstance(fd, int) else fd.close()
+            except OSError:
+                pass
+        pp = getattr(poller, '_poller', None)
+        if hasattr(pp, 'close'):
+            pp.close()
+        if tmp:
+            shutil.rmtree(tmp, ignore_errors=True)
+
+
+def client_stimuli(log, seen):
+    """-> list of [kind, arg, flag]"""
+    st = []
+    # seen-index boundaries of the operations, to decide whether a connect request led to `connected`
+    ops = [e for e in log if e[0] == 'op']
+    i, n = 0, len(log)
+    cur_op = -1
+    while i < n:
+        e = log[i]
+        j = i + 1
+        if e[0] == 'op':
+            cur_op += 1
+        elif e[0] == 'h':
+            sub = []
+            while j < n and log[j][0] in ('recv', 'send', 'after', 'peername_err'):
+                sub.append(log[j])
+                j += 1
+            name = e[1]
+            if name == 'connect':
+                lo = ops[cur_op][2]
+                hi = ops[cur_op + 1][2] if cur_op + 1 < len(ops) else len(seen)
+                ok = any(x == [0] for x in seen[lo:hi])
+                st.append(['connect', 1 if ok else 0, 0])
+            elif name == '_read':
+                rc = [x for x in sub if x[0] == 'recv']
+                r = rc[0][2] if rc else 'would'
+                st.append(['read', r if isinstance(r, str) else list(r), 0])
+            elif name == '_write':
+                sc = [x for x in sub if x[0] == 'send']
+                af = [x for x in sub if x[0] == 'after']
+                closes = 1 if (e[2] and af and not af[0][1]) else 0
+                if not sc:
+                    st.append(['writable', 'trans', 0])
+                elif sc[0][3] == 'pipe':
+                    st.append(['pipe', 0, 0])
+                else:
+                    st.append(['writable', sc[0][3], closes])
+            elif name == '_disconnect':
+                st.append(['disc', 0, 0])
+            elif name == 'write':
+                st.append(['write', e[2], 0])
+            elif name == 'close':
+                st.append(['close', 0, 0])
+        i = j
+    return st
+
+
+# ------------------------------------------------------------------------------------------------ Coq terms
+
+def rres_term(r):
+    if r == 'would':
+        return 'RWould'
+    if r == 'err':
+        return 'RErr'
+    if len(r) == 0:
+        return 'REof'
+    return '(RData %s)' % nlist(r)
+
+
+def wres_term(w):
+    if w == 'trans':
+        return 'WTrans'
+    if w in ('fatal', 'pipe'):
+        return 'WFatal'
+    return '(WAcc %d%%N)' % w
+
+
+def stim_term(x):
+    k, s, a = x
+    if k == 'snap':
+        return 'SSnap'
+    sn = natlit(s) if s >= 0 else natlit(1000 - s)      # unknown objects: numbers the model has never seen
+    if k == 'accept':
+        return 'SAccept %s' % sn
+    if k == 'acceptgone':
+        return 'SAcceptGone %s' % sn
+    if k == 'read':
+        return 'SRead %s %s' % (sn, rres_term(a))
+    if k == 'writable':
+        return 'SWritable %s %s' % (sn, wres_term(a))
+    if k == 'drop':
+        return 'SDrop %s' % sn
+    if k == 'disc':
+        return 'SDisc %s' % sn
+    if k == 'write':
+        return 'SWrite %s %d%%N' % (sn, a)
+    if k == 'close':
+        return 'SClose %s' % sn
+    raise ValueError(k)
+
+
+def cstim_term(x):
+    k, a, f = x
+    if k == 'connect':
+        return 'KConnect %s' % ('true' if a else 'false')
+    if k == 'read':
+        return 'KRead %s' % rres_term(a)
+    if k == 'writable':
+        return 'KWritable %s %s' % (wres_term(a), 'true' if f else 'false')
+    if k == 'pipe':
+        return 'KPipe'
+    if k == 'disc':
+        return 'KDisc'
+    if k == 'write':
+        return 'KWrite %d%%N' % a
+    if k == 'close':
+        return 'KClose'
+    raise ValueError(k)
+
+
+EVK = {'connect': 0, 'read': 1, 'error': 2, 'disconnect': 3}
+
+ENDINGS = (['pclose'], ['shutwr'], ['preset'], ['close'], ['write20k', 'close', 'pclose'], ['write20k', 'close', 'preset'],
+           ['write20k', 'pclose'], ['write20k', 'shutwr', 'pdrain'], ['send', 'close'], ['write20k', 'close', 'pdrain'])
+LATES = (['write'], ['close'], ['write', 'close'], ['close', 'write', 'tick'], ['write', 'write', 'close', 'close'])
+
+
+def directed(kinds=KINDS):
+    """the scenarios the property names: every way a connection can end x every late request, per poller"""
+    out = []
+    for kind in kinds:
+        for fam in ('unix', 'tcp'):
+            for e in ENDINGS:
+                for l in LATES:
+                    ops = [['connect', 0], ['connect', 1], ['send', 0, 70], ['send', 1, 3]]
+                    for x in e + l:
+                        if x == 'write20k':
+                            ops.append(['write', 0, 20000])
+                        elif x == 'write':
+                            ops.append(['write', 0, 5])
+                        elif x == 'send':
+                            ops.append(['send', 0, 10])
+                        elif x == 'tick':
+                            ops.append(['tick'])
+                        else:
+                            ops.append([x, 0])
+                    ops.append(['send', 1, 4])
+                    out.append({'k': 'server', 'poller': kind, 'family': fam, 'ops': ops})
+    return out
+
+
+class C12(Prop):
+    id = 'C12'
+    props_file = 'Props/C12.v'
+    imports = ['Model.ServerConn', 'Model.ServerConnObs']
+    quick_n = 180
+    thorough_n = 2000
+    rule = ('histories of peer actions (connect, send n, shutdown(WR), close, reset [SO_LINGER 0 on TCP / close with unread '
+            'data on AF_UNIX], drain, not reading so that the 4.5 KB send buffer fills) over 1-4 concurrent connections '
+            'interleaved with server write / close requests, also to already disconnected sockets, against a real '
+            'TCPServer/UNIXServer under Select, Poll, EPoll, stepped with zero-timeout ticks; tables read after every settled '
+            'step; plus client histories against real TCPClient/UNIXClient. non-trivial = at least one connection ended and a '
+            'request was addressed to it afterwards, or a connection ended while data was buffered for it')
+    trusted_base = ['hand-written model Model/ServerConn.v (code after fixes/C12_*.patch) tied to the implementation by this run',
+                    'kernel / poller readiness is NOT modelled: the model is driven by the recorded handler invocations and the '
+                    'recorded recv()/send()/accept() answers of the real run (partial)',
+                    'python oracle in harness/c12.py; real kernel sockets (AF_UNIX and 127.0.0.1)']
+    assumptions = ['accept() never returns the same socket object twice (NoDup (accepted h))',
+                   'TCP/AF_UNIX deliver the bytes a peer sent in order (the theorem is about recv() results -> read events)',
+                   'client: connect is not requested while connected (C12_client_balance_partial)',
+                   'a connection reset before accept() is reported without connect: known finding C12-reset-before-accept']
+
+    def __init__(self):
+        self._obs = {}
+        self.stats = {'ops': {}, 'pollers': {}, 'families': {}, 'stimuli': {}, 'branches': {}}
+
+    # ---- generation
+    def generate(self, rng, n, tier):
+        cases = []
+        d = directed()
+        if tier == 'quick':
+            # a deterministic third of the directed scenarios, rotating with the seed-derived offset
+            off = rng.randrange(3)
+            d = [c for i, c in enumerate(d) if i % 3 == off]
+        cases += d
+        nrand = max(0, n - len(cases))
+        for i in range(nrand):
+            if rng.random() < 0.22:
+                cases.append(self.gen_client(rng))
+            else:
+                cases.append(self.gen_server(rng, tier))
+        return cases
+
+    def gen_server(self, rng, tier):
+        kind = rng.choice(KINDS)
+        fam = 'tcp' if rng.random() < 0.35 else 'unix'
+        nconn = rng.randint(1, 4 if tier == 'thorough' else 3)
+        ops, alive, started = [], set(), set()
+        for _ in range(rng.randint(4, 16 if tier == 'thorough' else 12)):
+            r = rng.random()
+            c = rng.randrange(nconn)
+            if c not in started or r < 0.08:
+                if c in started:
+                    continue
+                op = ['connect', c]
+                if rng.random() < 0.25:
+                    op.append('nosettle')
+                started.add(c)
+                alive.add(c)
+            elif r < 0.30:
+                op = ['send', c, rng.choice([1, 3, 10, 64, 65, 130, 200])]
+            elif r < 0.45:
+                op = ['write', c, rng.choice([0, 1, 5, 100, 3000, 20000, 60000])]
+            elif r < 0.57:
+                op = ['close', c]
+            elif r < 0.65:
+                op = ['shutwr', c]
+            elif r < 0.75:
+                op = ['pclose', c]
+            elif r < 0.83:
+                op = ['preset', c]
+            elif r < 0.93:
+                op = ['pdrain', c]
+            else:
+                op = ['tick']
+            if op[0] in ('send', 'write', 'close', 'shutwr', 'pdrain') and rng.random() < 0.2:
+                op.append('nosettle')
+            ops.append(op)
+        return {'k': 'server', 'poller': kind, 'family': fam, 'ops': ops}
+
+    def gen_client(self, rng):
+        kind = rng.choice(KINDS)
+        fam = 'tcp' if rng.random() < 0.5 else 'unix'
+        ops = [['connect']]
+        for _ in range(rng.randint(2, 10)):
+            r = rng.random()
+            if r < 0.12:
+                ops.append(['connect'])
+            elif r < 0.32:
+                ops.append(['psend', rng.choice([1, 5, 64, 65, 150])])
+            elif r < 0.50:
+                ops.append(['write', rng.choice([1, 10, 3000, 300000])])
+            elif r < 0.62:
+                ops.append(['close'])
+            elif r < 0.70:
+                ops.append(['pshutwr'])
+            elif r < 0.80:
+                ops.append(['pclose'])
+            elif r < 0.88:
+                ops.append(['preset'])
+            else:
+                ops.append(['pdrain'])
+        return {'k': 'client', 'poller': kind, 'family': fam, 'ops': ops}
+
+    # ---- implementation
+    def impl(self, c):
+        key = common.canon(c)
+        if c.get('k', 'server') == 'client':
+            obs = run_client_case(c)
+            obs['stimuli'] = client_stimuli(obs['log'], obs['seen'])
+        else:
+            obs = run_server_case(c)
+            st, calls = stimuli(obs['log'])
+            obs['stimuli'], obs['calls'] = st, calls
+            obs['gone'] = sorted({e[1] for e in obs['log'] if e[0] == 'peername_err'})
+        del obs['log']
+        self._obs[key] = obs
+        self._count(c, obs)
+        return obs
+
+    def _count(self, c, obs):
+        st = self.stats
+        st['pollers'][c['poller']] = st['pollers'].get(c['poller'], 0) + 1
+        fam = c.get('k', 'server') + '/' + c.get('family', 'unix')
+        st['families'][fam] = st['families'].get(fam, 0) + 1
+        for op, ok in zip(c['ops'], obs.get('applied', [])):
+            if ok:
+                st['ops'][op[0]] = st['ops'].get(op[0], 0) + 1
+        client = c.get('k', 'server') == 'client'
+        for x in obs.get('stimuli', []):
+            k = x[0]
+            arg = x[1] if client else x[2]
+            if k == 'read':
+                k = 'read:' + (arg if isinstance(arg, str) else ('eof' if not arg else 'data'))
+            elif k == 'writable':
+                k = 'writable:' + (arg if isinstance(arg, str) else 'accepted')
+            st['stimuli'][k] = st['stimuli'].get(k, 0) + 1
+
+    # ---- model
+    def model_term(self, c):
+        obs = self._obs.get(common.canon(c))
+        if obs is None or 'stimuli' not in obs:
+            return None
+        if c.get('k', 'server') == 'client':
+            return 'obs_client [%s]' % '; '.join(cstim_term(x) for x in obs['stimuli'])
+        hm = 'false' if c['poller'] == 'Select' else 'true'
+        return 'obs_server %s [%s]' % (hm, '; '.join(stim_term(x) for x in obs['stimuli']))
+
+    def obs_for_model(self, c, obs):
+        if isinstance(obs, dict) and '__crash__' in obs:
+            return [-999]
+        if c.get('k', 'server') == 'client':
+            evs = [e if e[0] != 3 else [3, bytes(e[1])] for e in obs['seen']]
+            conn, pend, flag = obs['final']
+            return [evs, conn, pend, flag]
+        calls = [[0, x[1]] if x[0] == 'recv' else [1, x[1], x[2]] for x in obs['calls']]
+        evs = []
+        for e in obs['seen']:
+            if e[0] == 'snap':
+                evs.append([4, e[1]])
+            elif e[0] == 'read':
+                evs.append([1, e[1], bytes(e[2])])
+            else:
+                evs.append([EVK[e[0]], e[1], []])
+        return [calls, evs]
+
+    # ---- oracle: the property read directly on the observer's view and the tables
+    def oracle(self, c, obs):
+        if isinstance(obs, dict) and '__crash__' in obs:
+            return None
+        if c.get('k', 'server') == 'client':
+            return self.oracle_client(c, obs)
+        seen, order, nacc = obs['seen'], obs['order'], obs['naccepted']
+        if nacc != len(order):
+            return 'harness: %d connections made but %d accepted' % (len(order), nacc)
+        per = {s: [] for s in range(nacc)}
+        ended = set()
+        for e in seen:
+            if e[0] == 'snap':
+                t = e[1]
+                clients = set(t[0])
+                names = ('_clients', '_buffers', '_buffers', '_closeq', 'poller._read', 'poller._write',
+                         'poller._targets', 'poller._map')
+                for idx in (1, 2, 3, 4, 5, 6, 7):
+                    keys = [k[0] if idx == 1 else k for k in t[idx]]
+                    for k in keys:
+                        if k in ended:
+                            return 'no-trace: socket %d is still in %s after its disconnect' % (k, names[idx])
+                        if k not in clients:
+                            return 'no-trace: %s holds socket %d which is not a connected client' % (names[idx], k)
+                for k in clients:
+                    if k in ended:
+                        return 'no-trace: socket %d is still in _clients after its disconnect' % k
+                continue
+            kind, s = e[0], e[1]
+            if s not in per:
+                return 'event %s for an object that is not an accepted connection (%r)' % (kind, s)
+            if s in ended:
+                return 'event %s for socket %d after its disconnect' % (kind, s)
+            per[s].append(kind)
+            if kind == 'disconnect':
+                ended.add(s)
+        import re
+        known = None      # the recorded defect is reported only if nothing else is wrong with the case
+        for s in range(nacc):
+            word = ''.join({'connect': 'c', 'read': 'r', 'error': 'e', 'disconnect': 'd'}[k] for k in per[s])
+            if s in obs.get('gone', []) and word == 'ed':
+                known = 'reset-before-accept: socket %d got error+disconnect without a connect' % s
+                continue
+            if not re.fullmatch(r'cr*e?d', word):
+                return 'socket %d: observers saw %s, not connect read* [error] disconnect (all peers were closed at the end)' % (s, word)
+            conn = order[s]
+            got = b''.join(bytes(e[2]) for e in seen if e[0] == 'read' and e[1] == s)
+            want = pattern(conn, 0, obs['sent'][s])
+            if got != want[:len(got)]:
+                return 'socket %d: read events carry bytes that are not what the peer sent, in order' % s
+            touched = any(op[0] in ('write', 'close', 'preset') and len(op) > 1 and op[1] == conn for op in c['ops'])
+            if not touched and 'e' not in word and got != want:
+                return 'socket %d: peer sent %d bytes and closed in an orderly way, read events carry only %d' % (s, len(want), len(got))
+        last = [e for e in seen if e[0] == 'snap'][-1][1]
+        if any(last):
+            return 'no-trace: tables not empty after every connection has ended: %r' % (last,)
+        return known
+
+    def oracle_client(self, c, obs):
+        if obs['bad_connect']:
+            return None           # connect requested while connected: outside the property's precondition
+        evs = [e[0] for e in obs['seen'] if e[0] in (0, 1)]
+        nc, nd = evs.count(0), evs.count(1)
+        conn = obs['final'][0]
+        if nc != nd + (1 if conn else 0):
+            return 'client: %d connected but %d disconnected (still connected: %s)' % (nc, nd, conn)
+        for a, b in zip(evs, evs[1:]):
+            if a == b:
+                return 'client: two %s events in a row' % ('connected' if a == 0 else 'disconnected')
+        if evs and evs[0] != 0:
+            return 'client: disconnected before any connected'
+        return None
+
+    def finding_class(self, c, obs, what):
+        if what.startswith('reset-before-accept') and c.get('family') == 'tcp':
+            return 'C12-reset-before-accept'
+        return None
+
+    def nontrivial(self, c, obs):
+        if isinstance(obs, dict) and '__crash__' in obs:
+            return False
+        if c.get('k', 'server') == 'client':
+            return len([e for e in obs['seen'] if e[0] == 1]) >= 1
+        # late request: a write/close op applied to a connection after the snapshot that shows it ended
+        first_end = {}
+        nsnap = 0
+        for e in obs['seen']:
+            if e[0] == 'snap':
+                nsnap += 1
+            elif e[0] == 'disconnect':
+                first_end.setdefault(e[1], nsnap)
+        k = 0
+        for op, ok in zip(c['ops'], obs['applied']):
+            if ok and op[0] in ('write', 'close') and op[1] in obs['order']:
+                s = obs['order'].index(op[1])
+                if s in first_end and first_end[s] <= k:
+                    return True
+            if ok and op[-1] != 'nosettle':
+                k += 1
+        return any(e[0] == 'error' for e in obs['seen'])
+
+    def search(self, rng, tier):
+        for c in directed():
+            yield c
+        for _ in range(600):
+            yield self.gen_server(rng, 'thorough')
+        for _ in range(150):
+            yield self.gen_client(rng)
+
+
 if __name__ == '__main__':
-    import json
-    case = json.loads(sys.argv[1])
-    out = run_server_case(case)
-    for e in out['log']:
-        print(e)
-    print(out['seen'])
-    print(stimuli(out['log']))
+    sys.exit(common.main(C12()))
